@@ -761,7 +761,7 @@ func c01Gen(mode string) func(r *vh.Rand, tier string, n int) []c01In {
 			n = 300
 		}
 		var out []c01In
-		// the witness of finding 11 and its neighbours, always first
+		// the former witness of finding 11 (repaired by d3068df; must not panic any more), always first
 		w := []c01Task{{Lanes: []int{}, Waits: []int{1, 2}, Undo: true}, {Lanes: []int{}, Waits: []int{}, Undo: true}, {Lanes: []int{}, Waits: []int{}, Undo: true}}
 		out = append(out, c01In{Tasks: w, Mode: mode, Script: []c01Ev{{K: "ensure"}, {K: "finish", T: 1, O: "ok"}, {K: "finish", T: 2, O: "ok"}, {K: "abort"}}})
 		if mode == "f11" {
